@@ -9,6 +9,10 @@ ops (the first five lines are the header):
   `module <kind> <debugName> <breakpadId> <payload>`
         how the harness serves the library (kind and payload opaque here); `<breakpadId>` is the debug id every
         well-formed request of the case asks for
+  `helper w <cand> <fs entry>*`   real wholesym (`SymbolManager::with_config` with the directory of the one cand as
+        extra symbol directory) over real files: `D,<path>` | `F,<path>,<len>` | `L,<path>,<target>` (symlink);
+        `/ROOT` stands for a fresh directory; the store line then lists what the OPERATING SYSTEM reads for exactly
+        the listed path strings (symlinks and `..` resolved by the OS); `r` lines carry no locations
   `helper <d|c> <cand>*`     cand = `<l|r>,<path>,<ok|other|absent|junk>`
         `c`: what `get_candidate_paths_for_debug_file` returns, in order: location tag (`l`ocal / `r`emote),
         path, and what the helper serves there (the library, another build of it, nothing, garbage);
@@ -122,11 +126,22 @@ def parseCand (tok : String) : Option DebugLoc :=
     else none
   | _ => none
 
-/-- `(direct?, candidate locations)` -/
-def parseHelper (l : String) : Option (Bool × List DebugLoc) :=
+def parseFsEntry (tok : String) : Option Unit :=
+  match tok.splitOn "," with
+  | ["D", p] => (decodeStr p).map (fun _ => ())
+  | ["F", p, n] => do let _ ← decodeStr p; let _ ← n.toNat?; pure ()
+  | ["L", p, t] => do let _ ← decodeStr p; let _ ← decodeStr t; pure ()
+  | _ => none
+
+/-- `(mode, candidate locations)`; mode `w`: one candidate, then file-system entries (opaque here) -/
+def parseHelper (l : String) : Option (String × List DebugLoc) :=
   match words l with
+  | "helper" :: "w" :: c :: fs => do
+    let c ← parseCand c
+    let _ ← fs.mapM parseFsEntry
+    pure ("w", [c])
   | "helper" :: mode :: toks =>
-    if mode = "d" ∨ mode = "c" then (toks.mapM parseCand).map (fun cs => (mode = "d", cs)) else none
+    if mode = "d" ∨ mode = "c" then (toks.mapM parseCand).map (fun cs => (mode, cs)) else none
   | _ => none
 
 /-- `e` | `<id>,<tag>,<path>`: `none` = load error -/
@@ -229,6 +244,8 @@ structure Case where
   name : String
   id : String
   direct : Bool
+  /-- real wholesym over real files: loads are not observable -/
+  real : Bool
   cands : List (Option (String × DebugLoc))
   lookups : List (Nat × Lookup)
   store : Store
@@ -244,7 +261,8 @@ def parse (ls : List String) : Option Case :=
   | m :: h :: ld :: lk :: st :: reqs =>
     match words m with
     | "module" :: _ :: name :: id :: _ => do
-      let (direct, cands) ← parseHelper h
+      let (mode, cands) ← parseHelper h
+      let direct := mode = "d"
       let loaded ← parseLoaded ld
       if loaded.length ≠ cands.length then none else
       if direct ∧ cands.length ≠ 1 then none else
@@ -252,7 +270,8 @@ def parse (ls : List String) : Option Case :=
       let store ← parseStore st
       let reqs ← reqs.mapM (parseReq name id)
       if reqs.any (fun r => r.rq.parsed && !(lookups.any (·.1 == r.rq.offset))) then none else
-      pure ⟨name, id, direct, loaded, lookups, store, reqs⟩
+      if mode = "w" ∧ store.policy ≠ .wholesym then none else
+      pure ⟨name, id, direct, mode = "w", loaded, lookups, store, reqs⟩
     | _ => none
   | _ => none
 
@@ -340,7 +359,9 @@ def model (ls : List String) : List String :=
         | some fp => encodeStr (toApiFilePath fp)))
       -- what the batched `/symbolicate/v5` model reports for this offset
       [api, showSym o (symbolicateAt toApiFilePath m (some c.id) o)])
-    perOffset ++ c.reqs.map (fun r => showResult (sourceApiAt toApiFilePath (c.managerFor r) r.rq))
+    perOffset ++ c.reqs.map (fun r =>
+      let res := sourceApiAt toApiFilePath (c.managerFor r) r.rq
+      if c.real then "r " ++ showOutcome res.outcome else showResult res)
 
 def parseResult (l : String) : Option (Result SrcLoc) :=
   match words l with
@@ -458,6 +479,20 @@ def judge (ops impl : List String) : Bool × String :=
           | _, none => (false, s!"request {k}: no view of its offset")
           | some res, some v =>
             let wf := rq.parsed && rq.debugId.isSome
+            if c.real then
+              -- loads are not observable: the response class and the returned content are judged against what
+              -- the operating system reads for exactly the reported path string
+              if !res.loads.isEmpty then (false, s!"request {k}: unexpected location tokens") else
+              if !specOkContent v.pairs v.reported locFor c.store.fileLen wf rq.file res.outcome then
+                let what :=
+                  if wf && v.reported.contains rq.file && !res.outcome.accepted then
+                    "a path reported by /symbolicate/v5 for this offset was not accepted"
+                  else if !(wf && v.reported.contains rq.file) then
+                    "a request for a path that is not reported for this offset was not refused"
+                  else "the answer is not what the operating system reads for the reported path as it stands (content / readability of the file the debug-info path denotes)"
+                (false, s!"request {k} (offset {rq.offset}, {encodeStr rq.file}): {what}")
+              else go reqs rs (k + 1)
+            else
             if !specOk v.pairs v.reported locFor c.store.fileLen wf rq.file res then
               let what :=
                 if res.loads.length > 1 then "more than one source file read"
